@@ -1,7 +1,7 @@
 """C05 - Code 128: every accepted text decodes back to exactly that text.
 model phase : encoder model (transcription of getCodeIndexList) || reader automaton over all strings of a representative alphabet
 trace valid.: every returned image is read by the reference reader of Code128.tla (Trace1D)"""
-import vlib, onedim
+import vlib, onedim, gen, encconf
 
 def wanted(ev, tag):
     return ev.get("sym") == "c128" and onedim.is_roundtrip(tag)
@@ -12,6 +12,11 @@ def run(tier):
     chk.add_model([dict(module="MC_Code128.tla", cfg="MC_Code128_quick.cfg" if quick else "MC_Code128_thorough.cfg", workers=8, timeout=3000, heap="6g")])
     drive = vlib.build_harness(chk.work)
     jobs = onedim.c128_jobs(chk.rng, quick)
+    # encoder-model conformance (see tools/encconf.py): strings of MC_Code128's state space where the real code-set chooser left the model
+    wrong, drift = encconf.conformance(chk, "c128", quick)
+    for c in wrong + drift:
+        for api in ("Encode", "EncodeWithoutChecksum"):
+            jobs.append(gen.enc("c128", "".join(map(chr, c)).encode("utf-8"), (), api=api))
     evs, extras = onedim.judge(chk, drive, jobs, "Trace1D", "Trace1D.cfg", 10 if quick else 16, wanted)
     seen = set()
     for x in extras:
